@@ -12,11 +12,13 @@ def main():
     ids = [a for a in sys.argv[1:] if not a.startswith("--")]
     seed = os.environ.get("VERIF_SEED", "1")
     bad = 0
-    if "--clean" in sys.argv:
+    if "--clean" in sys.argv or "--clean-only" in sys.argv:
         for l in open(os.path.join(VERIF, "properties.jsonl")):
             pid = json.loads(l)["id"]
             rc, out = sh(["python3", os.path.join(VERIF, "tools", "check.py"), pid, "--tier", "quick", "--no-evidence"], env=dict(os.environ, VERIF_SEED=seed))
             print("clean %s: exit %d" % (pid, rc), flush=True); bad += rc != 0
+    if "--clean-only" in sys.argv:
+        print("selftest: %d problem(s)" % bad); return 1 if bad else 0
     for mp in sorted(glob.glob(os.path.join(VERIF, "seeded", "*", "meta.json"))):
         k = os.path.basename(os.path.dirname(mp)); m = json.load(open(mp))
         if ids and k not in ids: continue
